@@ -36,3 +36,11 @@ add("C20",
     Mutant("twin: swap operand order of a cross-side comparison",
            (CMP, "assert port_orig.direction == port_composer.direction, (", "assert port_composer.direction == port_orig.direction, ("), None),
     )
+
+add("C20",
+    Mutant("K6 the counterpart definition is looked up in the whole copy netlist (seeded C20-w3B)",
+           (CMP, "composer_definition = next(sdn.get_definitions(library_composer, patterns))", "composer_definition = next(sdn.get_definitions(self.ir_composer, patterns))"),
+           "K6|spydrnet/compare/compare_netlists.py:Comparer.compare_libraries|get_definitions|self.ir_composer"),
+    Mutant("K6 twin: method form of the same lookup",
+           (CMP, "composer_definition = next(sdn.get_definitions(library_composer, patterns))", "composer_definition = next(library_composer.get_definitions(patterns))"), None),
+)
